@@ -80,6 +80,27 @@ pub struct Model {
     pub graveyard: Vec<(VaultId, SecretId)>,
 }
 
+/// External file blobs created so far: blob name (hex SHA-256 of the
+/// encrypted bytes, as recorded in the secret) -> SHA-256 of the plaintext the
+/// harness handed in (C17 oracle: decrypt(blob) must give that plaintext).
+pub static XPLAIN: std::sync::Mutex<BTreeMap<String, String>> = std::sync::Mutex::new(BTreeMap::new());
+
+/// Deterministic content of an external file.
+pub fn xcontent(val: u64, size: usize) -> Vec<u8> {
+    let mut out = format!("external file {} ", marker(val, "file.external.content")).into_bytes();
+    let mut x = val.wrapping_mul(0x9E37_79B9_7F4A_7C15) | 1;
+    while out.len() < size {
+        x ^= x << 13;
+        x ^= x >> 7;
+        x ^= x << 17;
+        out.extend_from_slice(&x.to_le_bytes());
+    }
+    if size > 0 {
+        out.truncate(size.max(1));
+    }
+    out
+}
+
 /// All plaintext markers handed to the system so far (for the C03 scanner).
 pub static MARKERS: std::sync::Mutex<Vec<(String, String)>> = std::sync::Mutex::new(Vec::new());
 
@@ -960,6 +981,66 @@ impl Device {
                 match self.lock().await.compact_folder(&fid).await {
                     Ok(_) => "ok".into(),
                     Err(e) => format!("err:{}", short_err(&e.to_string())),
+                }
+            }
+            "xcreate" | "xupdate" => {
+                // a file secret whose content lives in an external encrypted blob
+                let size = match ju64(s, "size") % 5 {
+                    0 => 0usize,
+                    1 => 1,
+                    2 => 700,
+                    3 => 70_000,
+                    _ => 4096,
+                };
+                let body = xcontent(val, size);
+                let src_dir = self.dir.parent().unwrap_or(Path::new("/dev/shm")).join("xsrc");
+                let _ = std::fs::create_dir_all(&src_dir);
+                let ext = ["txt", "bin", "pdf", "png"][(val % 4) as usize];
+                let src = src_dir.join(format!("doc-{val}.{ext}"));
+                if std::fs::write(&src, &body).is_err() {
+                    return "skip".into();
+                }
+                let Ok(secret) = Secret::try_from(src.clone()) else { return "skip".into() };
+                let meta = make_meta(&secret, ju64(s, "label"), ju64(s, "tags"), jbool(s, "fav"), marker_labels, val);
+                let (fid, res_id) = if opn == "xcreate" {
+                    let Some(fid) = self.folder_of_slot(ju64(s, "folder")) else { return "skip".into() };
+                    let opts = AccessOptions { folder: Some(fid), ..Default::default() };
+                    match self.lock().await.create_secret(meta, secret, opts).await {
+                        Ok(r) => (fid, r.id),
+                        Err(e) => return format!("err:{}", short_err(&e.to_string())),
+                    }
+                } else {
+                    let Some((fid, id)) = self.model.slots.get(&slot).copied() else { return "skip".into() };
+                    let is_x = matches!(
+                        self.lock().await.read_secret(&id, Some(&fid)).await,
+                        Ok((row, _)) if matches!(row.secret(), Secret::File { content: FileContent::External { .. }, .. })
+                    );
+                    if !is_x {
+                        return "skip".into();
+                    }
+                    let opts = AccessOptions { folder: Some(fid), ..Default::default() };
+                    match self.lock().await.update_file(&id, meta, &src, opts).await {
+                        Ok(r) => (fid, r.id),
+                        Err(e) => return format!("err:{}", short_err(&e.to_string())),
+                    }
+                };
+                // what the account recorded for it
+                let row = self.lock().await.read_secret(&res_id, Some(&fid)).await;
+                match row {
+                    Ok((row, _)) => {
+                        if let Secret::File { content: FileContent::External { checksum, .. }, .. } = row.secret() {
+                            if let Ok(mut g) = XPLAIN.lock() {
+                                g.insert(hex::encode(checksum), sha256_hex(&body));
+                            }
+                        }
+                        if let Some(f) = self.model.folders.get_mut(&fid) {
+                            f.secrets.insert(res_id, secret_m(row.meta(), row.secret()));
+                        }
+                        self.model.slots.insert(slot, (fid, res_id));
+                        rec.stats.count("kind.external_file");
+                        "ok".into()
+                    }
+                    Err(e) => format!("err:read_back:{}", short_err(&e.to_string())),
                 }
             }
             "fsnap" => {
